@@ -1,5 +1,6 @@
 """F-XPORT (transport schemas: reversal, conversions, subgraphs, edge-list constructors) and
 F-IDX (internal indices of the edge iterators, zero-vertex graphs)."""
+import re
 from .model import GRAPH_CLASSES, LDG, LUG, DMG, UMG, DWG, UWG, NS, short
 from .report import Finding, RuleResult
 from .rules_pair import eval_order, strip_cast, ORDERINGS
@@ -298,7 +299,25 @@ def rule_xport(m):
                             mp = None
                             if a[0][0] == 'idx' and a[1][0] == 'idx' and a[0][1] == a[1][1] and a[0][2] == i and a[1][2] == j:
                                 mp = a[0][1]
-                            if mp is None:
+                            if mp is not None:
+                                # operator[] of the map inserts a default entry for a missing key: inside the copy loops it may
+                                # only be applied to vertices known to be in the set (the loop variable over the set, or the
+                                # neighbour after its membership test)
+                                from .rules_pair import region_atoms as _ratoms
+                                for sn in f.nodes:
+                                    if sn['k'] == 'CXXOperatorCallExpr' and 'callee' in sn and f.unit.decl(sn['callee']).get('op') == '[]' and \
+                                            tt.t(sn['args'][0]) == mp and sn['i'] in f.descendants(encl[0]['body']):
+                                        key = strip_cast(tt.t(sn['args'][1]))
+                                        if key == i:
+                                            continue
+                                        if key == j and any(is_membership(t) for t in _ratoms(f, tt, sn['i'])):
+                                            continue
+                                        why = why or ('`%s` is evaluated for a neighbour that is not known to be in the vertex set: '
+                                                      'operator[] inserts a key for it, so the returned map is no longer a bijection from '
+                                                      'the set onto 0..|S|-1' % f.expr_text(sn['i'])[:40])
+                            if why:
+                                pass
+                            elif mp is None:
                                 why = 'both endpoints are not translated through the same map (map[i], map[j])'
                             elif not (init and init[0] == 'ctor' and init[2] and init[2][0][0] == 'mcall' and
                                       init[2][0][1].endswith('::size') and init[2][0][2] == S):
@@ -360,6 +379,10 @@ def rule_xport(m):
                           delegated['base'].replace('BaseGraph::', ''), short(cls), adder)
             elif len(loops) != 1 or len(adds) != 1 or len(resz) != 1:
                 why = 'expected one loop over the container, one resize and one insertion through %s' % adder
+            elif _elem_type_mismatch(f, ct, loops[0]['loopvar']):
+                why = 'the loop variable over the container has type `%s`, which is not the element type of the container: every ' \
+                      'element is converted to a temporary on binding (a weight or label of another arithmetic type is silently ' \
+                      'truncated)' % _elem_type_mismatch(f, ct, loops[0]['loopvar'])
             else:
                 e = ('var', loops[0]['loopvar'])
                 if 'std::pair' in ct:
@@ -429,6 +452,20 @@ def rule_xport(m):
                 ok(f, schema='graph(0); for t in seq: m = max(t0,t1); if (m >= size) resize(m+1); %s(t0, t1[, t2])' % adder)
     res.require_sites(30, 'transport functions')
     return res
+
+
+def _elem_type_mismatch(f, container_ctype, loopvar):
+    """the declared type of the loop variable when it differs from the element type of the container (None when equal /
+    not decidable): binding `const T2 &` to elements of type T converts each element"""
+    mm = re.search(r'<\s*(std::(?:pair|tuple)<[^<>]*(?:<[^<>]*>[^<>]*)*>)', container_ctype)
+    if not mm:
+        return None
+    elem = mm.group(1).replace(' ', '')
+    lt = f.unit.decl(loopvar).get('ctype', '')
+    lt0 = lt.replace('const ', '').replace('&', '').strip().replace(' ', '')
+    if not lt0.startswith(('std::pair<', 'std::tuple<')):
+        return None
+    return None if lt0 == elem else lt.strip()
 
 
 def _get_index(f, argnode):
